@@ -259,6 +259,23 @@ def eval_terms(pid, imports, terms, tag="explain"):
     return out[-6000:]
 
 
+def write_if_changed(path, content):
+    """Translator output: rewrite a generated .v only when its content changed (keeps make incremental)."""
+    os.makedirs(os.path.dirname(path), exist_ok=True)
+    try:
+        with open(path) as f:
+            if f.read() == content:
+                return False
+    except FileNotFoundError:
+        pass
+    with open(path, "w") as f:
+        f.write(content)
+    return True
+
+
+GEN = os.path.join(COQDIR, "gen")
+
+
 # ---------------------------------------------------------------------------- known findings
 def load_known():
     if not os.path.exists(KNOWN):
